@@ -235,7 +235,7 @@ func (pipeline *IncrementalPipeline) sync(job *job, ctx context.Context) (int, e
 							parallelisms = 1
 						}
 
-						psize := int(math.Round(float64(len(entities)) / float64(parallelisms)))
+						psize := int(math.Ceil(float64(len(entities)) / float64(parallelisms)))
 						workResults := make([]presult, parallelisms)
 
 						local := func(workId int, lentities []*server.Entity, wg *sync.WaitGroup) {
@@ -264,8 +264,11 @@ func (pipeline *IncrementalPipeline) sync(job *job, ctx context.Context) (int, e
 							from := index
 							to := index + psize
 
+							if from > len(entities) {
+								from = len(entities)
+							}
 							if to >= len(entities) {
-								to = index + (len(entities) - index)
+								to = len(entities)
 							}
 
 							chunk := make([]*server.Entity, to-from)
